@@ -77,7 +77,7 @@ def run(tier, seed, jobs, prefix=PREFIX, prop=PROP) -> Result:
 
         hres = run_h("C16", ("C16.",), [{"cfg_ref": ("vf.props.c16", "hcfg", []), "alphabet": halphabet(tier),
                                          "depth": 4 if tier == "quick" else 5, "label": "INBOX(3), sizes asked / messages come and go"}],
-                     ("C16",), jobs, seed, [], time_budget=60 if tier == "quick" else 1200)
+                     ("C16",), jobs, seed, [], time_budget=60 if tier == "quick" else 900)
         res.failures.extend(hres.failures)
         res.coverage["evaluations"] += hres.coverage["transitions"]
         res.coverage["distinct_nontrivial"] += hres.coverage["states"]
